@@ -68,6 +68,9 @@ pub struct Stats {
     pub known_hits: BTreeMap<String, u64>,
     pub samples: Vec<Value>,
     pub timeouts: Vec<String>,
+    /// survey mode (RLV_SURVEY=1, development only): failures by signature, first message
+    #[serde(default)]
+    pub survey: BTreeMap<String, (u64, String)>,
     #[serde(skip)]
     pub recording: bool,
     #[serde(skip)]
@@ -126,6 +129,10 @@ impl Stats {
             }
         }
         self.timeouts.extend(o.timeouts);
+        for (k, (n, m)) in o.survey {
+            let e = self.survey.entry(k).or_insert((0, m));
+            e.0 += n;
+        }
     }
 }
 
@@ -150,6 +157,9 @@ pub struct Finding {
     pub ablate_rules: Vec<String>,
     #[serde(default)]
     pub commit: Option<String>,
+    /// other properties whose generators also honour this finding's `excludes`
+    #[serde(default)]
+    pub shared_with: Vec<String>,
 }
 
 #[derive(Clone, Debug, Default)]
@@ -198,13 +208,56 @@ impl Ctx {
         if self.strict {
             return false;
         }
-        self.known
-            .open_for(&self.prop)
-            .any(|f| f.excludes.iter().any(|e| e == switch))
+        self.known.findings.iter().any(|f| {
+            f.status == "open"
+                && (f.property == self.prop || f.shared_with.iter().any(|p| *p == self.prop))
+                && f.excludes.iter().any(|e| e == switch)
+        })
+    }
+    /// All switches that are off for this property.
+    pub fn off_switches(&self) -> Vec<String> {
+        if self.strict {
+            return vec![];
+        }
+        let mut v = vec![];
+        for f in &self.known.findings {
+            if f.status == "open" && (f.property == self.prop || f.shared_with.iter().any(|p| *p == self.prop)) {
+                v.extend(f.excludes.iter().cloned());
+            }
+        }
+        v
+    }
+    /// A context that only carries generator switches (for use inside `prop_map` closures).
+    pub fn switches_only(prop: &str, off: Vec<String>, strict: bool) -> Ctx {
+        Ctx {
+            prop: prop.to_string(),
+            tier: Tier::Quick,
+            seed: 0,
+            worker: 0,
+            nworkers: 1,
+            scratch: Default::default(),
+            verif_dir: Default::default(),
+            known: Known {
+                findings: vec![Finding {
+                    id: "switches".into(),
+                    property: prop.to_string(),
+                    status: "open".into(),
+                    what: String::new(),
+                    witness: None,
+                    signatures: vec![],
+                    excludes: off,
+                    ablate_rules: vec![],
+                    commit: None,
+                    shared_with: vec![],
+                }],
+            },
+            strict,
+            scale: 1.0,
+        }
     }
     /// The open finding a failure signature belongs to.
     pub fn known_sig(&self, sig: &str) -> Option<&Finding> {
-        if self.strict {
+        if self.strict || std::env::var("RLV_IGNORE_KNOWN").is_ok() {
             return None;
         }
         self.known
@@ -364,7 +417,11 @@ where
             if stats.cur_nontrivial && stats.samples.len() < 4 && stats.cases % 7 == 1 {
                 let mut s = serde_json::to_string(&value).unwrap_or_default();
                 if s.len() > 1500 {
-                    s.truncate(1500);
+                    let mut n = 1500;
+                    while !s.is_char_boundary(n) {
+                        n -= 1;
+                    }
+                    s.truncate(n);
                     s.push_str("…(truncated)");
                     stats.samples.push(json!({"part": self.name, "case_json_prefix": s}));
                 } else {
@@ -381,6 +438,11 @@ where
                 Verdict::Fail(f) => {
                     if let Some(k) = ctx.known_sig(&f.sig) {
                         *stats.known_hits.entry(k.id.clone()).or_default() += 1;
+                    } else if std::env::var("RLV_ONLY_SIG").is_ok_and(|o| !f.sig.starts_with(&o)) {
+                        // development aid: look at one kind of failure only
+                    } else if std::env::var("RLV_SURVEY").is_ok() {
+                        let e = stats.survey.entry(f.sig.clone()).or_insert((0, f.msg.clone()));
+                        e.0 += 1;
                     } else {
                         // shrink
                         let mut best = value.clone();
@@ -390,14 +452,15 @@ where
                         let mut scratch = Stats::default();
                         if tree.simplify() {
                             loop {
-                                if steps >= 400 || t0.elapsed() > Duration::from_secs(120) {
+                                if steps >= 3000 || t0.elapsed() > Duration::from_secs(240) {
                                     break;
                                 }
                                 steps += 1;
                                 hb.beat(part_no, idx);
                                 let v = tree.current();
                                 let failed = match (self.test)(ctx, &v, &mut scratch) {
-                                    Verdict::Fail(f2) if ctx.known_sig(&f2.sig).is_none() => {
+                                    // shrink towards the same kind of failure only
+                                    Verdict::Fail(f2) if f2.sig == best_f.sig => {
                                         best = v;
                                         best_f = f2;
                                         true
@@ -987,6 +1050,12 @@ pub fn parent_main(def: &PropDef, ctx: &Ctx, cfg: &ParentCfg) -> Outcome {
         &evdir.join(format!("{}.json", ctx.prop)),
         serde_json::to_string_pretty(&ev).unwrap().as_bytes(),
     );
+    if !merged.survey.is_empty() {
+        println!("SURVEY (development mode, failures are not shrunk or reported as violations):");
+        for (k, (n, m)) in &merged.survey {
+            println!("--- {n} x [{k}] {}", m);
+        }
+    }
     println!(
         "{} {}: cases={} evaluations={} distinct_nontrivial={} discards={} known_hits={:?} timeouts={} wall={:.1}s",
         ctx.prop,
